@@ -43,7 +43,7 @@ def run(ctx):
 
 def cross_check_in_coq(ctx, n):
     """re-evaluate a slice of the value.rt observations inside Coq (vm_compute) - cross-checks extraction"""
-    import c17_util
+    from props import c17_util
     cases = c17_util.coq_cases(os.path.join(ctx.work, "lines.tsv"), n)
     body = ("From Coq Require Import List NArith ZArith Bool.\nFrom OC Require Import Base.Bytes Model.Value.\nImport ListNotations.\nOpen Scope Z_scope.\n"
             + c17_util.COQ_EQ +
